@@ -121,6 +121,9 @@ class ConcreteCtx:
     def abs(self, x):
         return abs(x)
 
+    def sqrt(self, x):
+        return math.sqrt(x)
+
     def is_none(self, x):
         return x is None
 
